@@ -5,6 +5,8 @@ From Coq Require Import Lia.
 
 Local Open Scope list_scope.
 
+Ltac app_norm := repeat (rewrite <- app_assoc || rewrite <- app_comm_cons); cbn [app]; reflexivity.
+
 (* ====================================================================== *)
 (* 1. words of a line                                                      *)
 (* ====================================================================== *)
@@ -87,6 +89,11 @@ Proof.
     change ((c :: ws) ++ t ++ x) with (c :: ws ++ t ++ x).
     rewrite words_app_sp by exact Hc. now rewrite words_blank_app, words_solid_app.
 Qed.
+
+Lemma words_token0 ws t x :
+  blank ws -> t <> [] -> solid t -> next_is_space_or_end x = true ->
+  words_line (ws ++ t ++ x) = t :: words_line x.
+Proof. intros. now rewrite words_blank_app, words_solid_app. Qed.
 
 Lemma words_lstrip x : words_line (lstrip x) = words_line x.
 Proof.
@@ -498,3 +505,237 @@ Qed.
 Lemma lw_none y :
   scan start_here y = None -> scan end_here y = None -> lw y = words_line y.
 Proof. intros Hs He. apply lw_plain_words; [now apply no_start_tok | now apply no_end_tok]. Qed.
+
+(* ---- split_tail_ws ---- *)
+Lemma stw_spec b : forall p w, split_tail_ws b = (p, w) -> b = p ++ w /\ blank w.
+Proof.
+  induction b as [|c b IH]; intros p w H; simpl in H.
+  - injection H as <- <-. split; [reflexivity|constructor].
+  - destruct (split_tail_ws b) as [p' w'] eqn:E. destruct (IH _ _ eq_refl) as [-> Hw].
+    destruct p' as [|d p'].
+    + destruct (is_space c) eqn:Hc; injection H as <- <-; split; auto. now constructor.
+    + injection H as <- <-. split; auto.
+Qed.
+
+Lemma stw_blank b : blank b -> split_tail_ws b = ([], b).
+Proof.
+  intros H. induction H as [|c b Hc _ IH]; [reflexivity|]. simpl. now rewrite IH, Hc.
+Qed.
+
+(* a prefix that ends in a solid character stays in the first component *)
+Lemma stw_app_solid a d c :
+  is_space d = false ->
+  split_tail_ws ((a ++ [d]) ++ c) = ((a ++ [d]) ++ fst (split_tail_ws c), snd (split_tail_ws c)).
+Proof.
+  intros Hd. induction a as [|x a IH].
+  - simpl. destruct (split_tail_ws c) as [p w]. simpl. destruct p; [now rewrite Hd|reflexivity].
+  - change (((x :: a) ++ [d]) ++ c) with (x :: (a ++ [d]) ++ c). cbn [split_tail_ws]. rewrite IH.
+    destruct (split_tail_ws c) as [p w]. cbn [fst snd].
+    destruct ((a ++ [d]) ++ p) eqn:E; [exfalso; destruct a; discriminate E|].
+    cbn [app]. now rewrite E.
+Qed.
+
+Lemma blank_no_at w : blank w -> Forall (fun c => c <> at_ch) w.
+Proof. intros H. eapply Forall_impl; [|exact H]. intros c Hc ->. discriminate. Qed.
+
+Lemma solid_letters_no_at m : (forall c, In c (lower m) -> is_lower c = true) -> Forall (fun c => c <> at_ch) m.
+Proof.
+  intros H. apply Forall_forall. intros c Hin ->.
+  specialize (H (lower_ch at_ch) (in_map lower_ch _ _ Hin)). discriminate.
+Qed.
+
+Lemma typ_no_at ty : typ_ok ty -> Forall (fun c => c <> at_ch) ty.
+Proof.
+  intros H. apply solid_letters_no_at.
+  destruct (typ_cases ty H) as [E|[E|[E|[E|E]]]]; rewrite E; intros c Hin; simpl in Hin;
+    repeat (destruct Hin as [<-|Hin]; [reflexivity|]); contradiction.
+Qed.
+
+Lemma end_here_start_marker ty z : typ_ok ty -> end_here (start_marker ty ++ z) = None.
+Proof.
+  intros H. unfold end_here, start_marker. cbn [app]. rewrite Ascii.eqb_refl.
+  destruct (typ_cases ty H) as [E|[E|[E|[E|E]]]];
+    (destruct ty as [|c ty]; [discriminate E|]); injection E as E1 _;
+    cbn [app]; rewrite take_ci_hd by (rewrite E1; reflexivity); reflexivity.
+Qed.
+
+Lemma scan_end_after_start b ty post :
+  blank b -> typ_ok ty ->
+  scan end_here (b ++ start_marker ty ++ post) =
+  match scan end_here post with
+  | Some (c, ety, r) => Some (b ++ start_marker ty ++ c, ety, r)
+  | None => None
+  end.
+Proof.
+  intros Hb Hty. rewrite (scan_skip end_here b _ end_here_at (blank_no_at b Hb)).
+  assert (E : scan end_here (start_marker ty ++ post) =
+              match scan end_here post with
+              | Some (c, ety, r) => Some (start_marker ty ++ c, ety, r) | None => None end).
+  { pose proof (end_here_start_marker ty post Hty) as Hn. unfold start_marker in *.
+    cbn [app] in *. cbn [scan]. rewrite Hn.
+    rewrite (scan_skip end_here ty post end_here_at (typ_no_at ty Hty)).
+    now destruct (scan end_here post) as [[[? ?] ?]|]. }
+  rewrite E. now destruct (scan end_here post) as [[[? ?] ?]|].
+Qed.
+
+Lemma scan_start_at_marker b ty z :
+  blank b -> typ_ok ty -> scan start_here (b ++ start_marker ty ++ z) = Some (b, ty, z).
+Proof.
+  intros Hb Hty. rewrite (scan_skip start_here b _ start_here_at (blank_no_at b Hb)).
+  assert (E : scan start_here (start_marker ty ++ z) = Some ([], ty, z)).
+  { pose proof (start_here_marker ty z Hty) as Hs. unfold start_marker in *. cbn [app] in *.
+    cbn [scan]. now rewrite Hs. }
+  rewrite E. now rewrite app_nil_r.
+Qed.
+
+(* ---- what the global argument needs to know about one clean line ---- *)
+Definition LF (x : str) : Prop :=
+  match adm_search x, end_search x with
+  | None, None => lw x = words_line x
+  | None, Some (pre, _, epost) => lw x = words_line pre ++ words_line epost
+  | Some (p, ind, ty, post), None =>
+    p = [] /\ blank ind /\ typ_ok ty /\ lw x = [s "@note"; capitalize ty] ++ words_line post
+  | Some (p, ind, ty, post), Some (pre, _, epost) =>
+    p = [] /\ blank ind /\ typ_ok ty /\ all_space pre = false /\
+    exists postS, adm_search pre = Some ([], ind, ty, postS) /\
+                  lw x = [s "@note"; capitalize ty] ++ words_line postS ++ words_line epost
+  end.
+
+Lemma lw_end_marker e ty : lower e = s "end" -> typ_ok ty ->
+  note_titles (strip_markers [end_marker e ty]) = [].
+Proof.
+  intros He H. unfold strip_markers. cbn [filter]. now rewrite end_marker_tok.
+Qed.
+
+Lemma lw_start_marker ty : typ_ok ty ->
+  note_titles (strip_markers [start_marker ty]) = [s "@note"; capitalize ty].
+Proof.
+  intros H. unfold strip_markers. cbn [filter]. rewrite start_marker_not_end by exact H.
+  cbn [negb note_titles flat_map]. unfold note_title. now rewrite start_marker_tok.
+Qed.
+
+Lemma lw_split ws1 ws2 :
+  note_titles (strip_markers (ws1 ++ ws2)) =
+  note_titles (strip_markers ws1) ++ note_titles (strip_markers ws2).
+Proof. now rewrite strip_markers_app, note_titles_app. Qed.
+
+Lemma is_empty_spec {A} (x : list A) : (match x with [] => true | _ => false end) = true -> x = [].
+Proof. destruct x; [reflexivity|discriminate]. Qed.
+
+Lemma end_line_words pre ws e ty r :
+  blank ws -> (pre = [] \/ ws <> []) -> lower e = s "end" -> typ_ok ty ->
+  next_is_space_or_end r = true ->
+  scan start_here pre = None -> scan end_here pre = None ->
+  scan start_here r = None -> scan end_here r = None ->
+  lw (pre ++ ws ++ end_marker e ty ++ r) = words_line pre ++ words_line r.
+Proof.
+  intros Hws Hor He Hty Hr Hs1 He1 Hs2 He2. unfold lw.
+  destruct (end_marker_solid e ty He Hty) as [Hsol Hne].
+  rewrite (words_token pre ws (end_marker e ty) r Hws Hor Hne Hsol Hr).
+  change (end_marker e ty :: words_line r) with ([end_marker e ty] ++ words_line r).
+  rewrite !lw_split, lw_end_marker by assumption.
+  fold (lw pre). fold (lw r). now rewrite !lw_none.
+Qed.
+
+Lemma clean_LF x : line_clean x = true -> LF x.
+Proof.
+  unfold line_clean, LF, adm_search, end_search, start_clean, end_clean.
+  intros H. apply andb_true_iff in H as [Hsc Hec].
+  destruct (scan start_here x) as [[[bS ty] post]|] eqn:ES;
+    destruct (scan end_here x) as [[[bE ety] r]|] eqn:EE.
+  - (* start and end marker on the same line *)
+    apply andb_true_iff in Hsc as [Hsc HpostS]. apply andb_true_iff in Hsc as [HbS Hnext].
+    apply all_space_blank in HbS.
+    destruct (scan_some _ _ _ _ _ ES) as (y & Hx & Hy & _).
+    destruct (start_here_spec _ _ _ Hy) as [-> Hty]. subst x.
+    rewrite (stw_blank bS HbS).
+    rewrite (scan_end_after_start bS ty post HbS Hty) in EE.
+    destruct (scan end_here post) as [[[c ety'] r']|] eqn:EP; [|discriminate].
+    injection EE as <- <- <-.
+    destruct (scan_some _ _ _ _ _ EP) as (y & Hpost & Hy' & _).
+    destruct (end_here_spec _ _ _ Hy') as (e & -> & He & Hety).
+    (* the text before the end marker: ends with the type's last letter, then c *)
+    destruct (typ_solid ty Hty) as [Hsol Htyne].
+    destruct (exists_last Htyne) as (ty0 & d & Ety).
+    assert (Hd : is_space d = false).
+    { rewrite Ety in Hsol. apply Forall_app in Hsol as [_ Hsol]. now inversion Hsol. }
+    assert (Estw : split_tail_ws (bS ++ start_marker ty ++ c) =
+                   ((bS ++ start_marker ty) ++ fst (split_tail_ws c), snd (split_tail_ws c))).
+    { unfold start_marker. rewrite Ety.
+      replace (bS ++ (at_ch :: ty0 ++ [d]) ++ c) with (((bS ++ at_ch :: ty0) ++ [d]) ++ c)
+        by app_norm.
+      replace (bS ++ at_ch :: ty0 ++ [d]) with ((bS ++ at_ch :: ty0) ++ [d]) by app_norm.
+      now apply stw_app_solid. }
+    change (at_ch :: ty ++ c) with (start_marker ty ++ c) in *.
+    rewrite Estw. cbn [fst].
+    destruct (split_tail_ws c) as [c' ws] eqn:Ec. destruct (stw_spec _ _ _ Ec) as [-> Hws].
+    cbn [fst snd] in *.
+    apply andb_true_iff in Hec as [Hec HrS]. apply andb_true_iff in Hec as [Hec HrE].
+    apply andb_true_iff in Hec as [Hstart Hrnext].
+    rewrite Estw in Hstart. cbn [snd] in Hstart.
+    assert (Hwsne : ws <> []).
+    { apply orb_true_iff in Hstart as [Hemp|Hw].
+      - apply is_empty_spec in Hemp. destruct bS; discriminate Hemp.
+      - now destruct ws. }
+    destruct (scan start_here r') eqn:ErS; [discriminate|].
+    destruct (scan end_here r') eqn:ErE; [discriminate|].
+    destruct (scan start_here post) eqn:EpS; [discriminate|].
+    repeat split; auto.
+    + (* pre is not blank: it contains '@' *)
+      destruct (all_space ((bS ++ start_marker ty) ++ c')) eqn:Ea; [|reflexivity].
+      apply all_space_blank in Ea. apply Forall_app in Ea as [Ea _]. apply Forall_app in Ea as [_ Ea].
+      inversion Ea as [|? ? Hat _]. discriminate Hat.
+    + exists c'. split.
+      * rewrite <- app_assoc, (scan_start_at_marker bS ty c' HbS Hty). now rewrite (stw_blank bS HbS).
+      * assert (Hc's : scan start_here c' = None).
+        { rewrite Hpost in EpS. rewrite <- app_assoc in EpS.
+          exact (scan_none_sub start_here [] c' _ start_here_mono EpS). }
+        assert (Hc'e : scan end_here c' = None).
+        { pose proof (scan_none_pre end_here _ _ _ _ end_here_mono eq_refl EP) as Hn.
+          exact (scan_none_sub end_here [] c' ws end_here_mono Hn). }
+        unfold lw at 1.
+        destruct (start_marker_solid ty Hty) as [Hmsol Hmne].
+        rewrite (words_token0 bS (start_marker ty) post HbS Hmne Hmsol Hnext).
+        change (start_marker ty :: words_line post) with ([start_marker ty] ++ words_line post).
+        rewrite lw_split, lw_start_marker by exact Hty. f_equal. f_equal.
+        fold (lw post). rewrite Hpost, <- app_assoc.
+        rewrite (end_line_words c' ws e ety' r' Hws (or_intror Hwsne) He Hety Hrnext Hc's Hc'e ErS ErE).
+        now rewrite words_lstrip.
+  - (* start marker only *)
+    apply andb_true_iff in Hsc as [Hsc HpostS]. apply andb_true_iff in Hsc as [HbS Hnext].
+    apply all_space_blank in HbS.
+    destruct (scan_some _ _ _ _ _ ES) as (y & Hx & Hy & _).
+    destruct (start_here_spec _ _ _ Hy) as [-> Hty]. subst x.
+    rewrite (stw_blank bS HbS). repeat split; auto.
+    destruct (scan start_here post) eqn:EpS; [discriminate|].
+    assert (EpE : scan end_here post = None).
+    { rewrite app_assoc in EE. rewrite <- (app_nil_r post) in EE.
+      exact (scan_none_sub end_here _ post [] end_here_mono EE). }
+    unfold lw at 1. destruct (start_marker_solid ty Hty) as [Hmsol Hmne].
+    rewrite (words_token0 bS (start_marker ty) post HbS Hmne Hmsol Hnext).
+    change (start_marker ty :: words_line post) with ([start_marker ty] ++ words_line post).
+    rewrite lw_split, lw_start_marker by exact Hty. f_equal. f_equal.
+    fold (lw post). now apply lw_none.
+  - (* end marker only *)
+    destruct (scan_some _ _ _ _ _ EE) as (y & Hx & Hy & _).
+    destruct (end_here_spec _ _ _ Hy) as (e & -> & He & Hety). subst x.
+    destruct (split_tail_ws bE) as [pre ws] eqn:Eb. destruct (stw_spec _ _ _ Eb) as [-> Hws].
+    cbn [fst snd] in *.
+    apply andb_true_iff in Hec as [Hec HrS]. apply andb_true_iff in Hec as [Hec HrE].
+    apply andb_true_iff in Hec as [Hstart Hrnext].
+    destruct (scan start_here r) eqn:ErS; [discriminate|].
+    destruct (scan end_here r) eqn:ErE; [discriminate|].
+    assert (Hor : pre = [] \/ ws <> []).
+    { apply orb_true_iff in Hstart as [Hemp|Hw].
+      - apply is_empty_spec in Hemp. left. now destruct pre.
+      - right. now destruct ws. }
+    assert (HpS : scan start_here pre = None).
+    { rewrite <- app_assoc in ES. exact (scan_none_sub start_here [] pre _ start_here_mono ES). }
+    assert (HpE : scan end_here pre = None).
+    { pose proof (scan_none_pre end_here _ _ _ _ end_here_mono eq_refl EE) as Hn.
+      exact (scan_none_sub end_here [] pre ws end_here_mono Hn). }
+    rewrite <- app_assoc.
+    rewrite (end_line_words pre ws e ety r Hws Hor He Hety Hrnext HpS HpE ErS ErE).
+    now rewrite words_lstrip.
+  - now apply lw_none.
+Qed.
